@@ -11,7 +11,10 @@
     - accessors and serialisers ([To*], [ToBytes], [HeaderBytes], [SystemBytes], [MarshalBinary])
       return FRESH caller-owned cells (or values);
     - [AppendTo] / [AppendBinaryTo] / [AppendBodyTo] write only into the caller's destination;
-    - re-stamped and derived copies SHARE the object-owned body cells;
+    - re-stamped and derived copies SHARE one body (its cells AND its encode memo);
+    - the lazy encode memo of a constructed message body ([treeBody.enc]) is an OBJECT-owned cell,
+      allocated by whichever serialiser call comes first; that call, like every later one, hands the
+      caller a fresh caller-owned copy (or appends into the caller's destination) — never the memo;
     - [DecodeOwned] / [DecodeOwnedHSMSPayload] transfer ownership: the object's views alias the
       caller's cell (binary and string leaves alias the payload, numeric and boolean leaves build a
       typed copy). The property statement excludes these entry points; they are in the model as the
@@ -30,18 +33,26 @@ Definition heap : Type := list cell.       (* address = index; allocation append
 
 Record view : Type := { v_cell : nat; v_off : nat; v_len : nat }.
 
-(** an object retains views, arranged in observation groups: group 0 = what the value accessors read
-    (To*, *At, iterators, Size, ToSML, Item()), group 1 = what the serialisers read (ToBytes,
-    AppendTo, AppendBodyTo, EncodedLen, MarshalBinary) *)
-Record object : Type := { o_groups : list (list view) }.
+(** the lazy encode memo of a body *)
+Inductive memo : Type :=
+| MNone                 (* no memo: items, control messages, raw-frame (decoded) bodies *)
+| MUnfired              (* constructed message body, nobody has serialised it yet *)
+| MFired (v : view).    (* the memoised encoding *)
 
+(** a body retains views, arranged in observation groups: group 0 = what the value accessors read
+    (To*, *At, iterators, Size, ToSML, Item()), group 1 = what the serialisers read (ToBytes,
+    AppendTo, AppendBodyTo, EncodedLen, MarshalBinary) — through the memo once it has fired *)
+Record body : Type := { b_groups : list (list view); b_memo : memo }.
+
+(** an object (item or message) is a reference to a body; re-stamped / derived copies share it *)
 Record state : Type := {
   st_heap : heap;
-  st_objs : list object;
+  st_bodies : list body;
+  st_objs : list nat;
   st_caller : list view        (* the buffers the caller holds, in order of appearance *)
 }.
 
-Definition init : state := {| st_heap := []; st_objs := []; st_caller := [] |}.
+Definition init : state := {| st_heap := []; st_bodies := []; st_objs := []; st_caller := [] |}.
 
 Inductive lkind : Type :=
 | KAlias     (* binary / ASCII / JIS-8 / localized leaf: the value aliases the decode buffer *)
@@ -50,7 +61,7 @@ Inductive lkind : Type :=
 Inductive op : Type :=
 | ONew (data : list Z)
 | OWrite (cv i : nat) (v : Z)
-| OConstruct (cvs : list nat)
+| OConstruct (cvs : list nat) (lazy : bool)   (* lazy = a data message: body encoded on first use *)
 | ODecode (cv : nat) (k : lkind) (skip hl : nat)
 | ODecodeOwned (cv : nat) (k : lkind) (skip hl : nat)
 | OGet (o g : nat)
@@ -89,12 +100,24 @@ Definition alloc (h : heap) (o : owner) (d : list Z) : heap * nat :=
 
 Definition whole (a : nat) (n : nat) : view := {| v_cell := a; v_off := 0; v_len := n |}.
 
-Definition group (ob : object) (g : nat) : list view := nth g (o_groups ob) [].
+Definition group (b : body) (g : nat) : list view := nth g (b_groups b) [].
+
+Definition obs_body (h : heap) (b : body) (g : nat) : list Z :=
+  match g, b_memo b with
+  | 1, MFired m => read h m
+  | _, _ => flat_map (read h) (group b g)
+  end.
+
+Definition body_of (st : state) (o : nat) : option body :=
+  match nth_error (st_objs st) o with
+  | Some bi => nth_error (st_bodies st) bi
+  | None => None
+  end.
 
 (** observation of group [g] of object [o] *)
 Definition obs (st : state) (o g : nat) : list Z :=
-  match nth_error (st_objs st) o with
-  | Some ob => flat_map (read (st_heap st)) (group ob g)
+  match body_of st o with
+  | Some b => obs_body (st_heap st) b g
   | None => []
   end.
 
@@ -128,34 +151,58 @@ Definition decoded_groups (k : lkind) (a n skip hl : nat) (typed_cell : nat) : l
   | KTyped => [[whole typed_cell payload]; [raw]]
   end.
 
+(** a serialiser call on object [o]: if its body's memo has not fired, encode into a fresh
+    OBJECT-owned cell and keep that as the memo *)
+Definition fire (st : state) (o g : nat) : state :=
+  if negb (Nat.eqb g 1) then st else
+  match nth_error (st_objs st) o with
+  | Some bi =>
+    match nth_error (st_bodies st) bi with
+    | Some b =>
+      match b_memo b with
+      | MUnfired =>
+        let d := flat_map (read (st_heap st)) (group b 1) in
+        let '(h1, a) := alloc (st_heap st) (Obj bi) d in
+        {| st_heap := h1;
+           st_bodies := set_nth (st_bodies st) bi {| b_groups := b_groups b; b_memo := MFired (whole a (length d)) |};
+           st_objs := st_objs st; st_caller := st_caller st |}
+      | _ => st
+      end
+    | None => st
+    end
+  | None => st
+  end.
+
+Definition add_object (st : state) (h : heap) (b : body) : state :=
+  {| st_heap := h; st_bodies := st_bodies st ++ [b]; st_objs := st_objs st ++ [length (st_bodies st)];
+     st_caller := st_caller st |}.
+
 Definition step (st : state) (p : op) : state :=
   let h := st_heap st in
-  let id := length (st_objs st) in
+  let id := length (st_bodies st) in
   match p with
   | ONew d =>
     let '(h1, a) := alloc h Caller d in
-    {| st_heap := h1; st_objs := st_objs st; st_caller := st_caller st ++ [whole a (length d)] |}
+    {| st_heap := h1; st_bodies := st_bodies st; st_objs := st_objs st; st_caller := st_caller st ++ [whole a (length d)] |}
   | OWrite cv i x =>
     match caller_view st cv with
     | Some v =>
       if Nat.ltb i (v_len v) then
         {| st_heap := update_cell h (v_cell v) (fun d => set_nth d (v_off v + i) x);
-           st_objs := st_objs st; st_caller := st_caller st |}
+           st_bodies := st_bodies st; st_objs := st_objs st; st_caller := st_caller st |}
       else st
     | None => st
     end
-  | OConstruct cvs =>
+  | OConstruct cvs lazy =>
     let '(h1, ws) := copy_in h id (pick (st_caller st) cvs) in
-    {| st_heap := h1; st_objs := st_objs st ++ [{| o_groups := [ws; ws] |}]; st_caller := st_caller st |}
+    add_object st h1 {| b_groups := [ws; ws]; b_memo := if lazy then MUnfired else MNone |}
   | ODecode cv k skip hl =>
     match caller_view st cv with
     | Some v =>
       let d := read h v in
       let '(h1, a) := alloc h (Obj id) d in                       (* the clone *)
       let '(h2, t) := alloc h1 (Obj id) (sub d (skip + hl) (length d - skip - hl)) in   (* typed values *)
-      {| st_heap := h2;
-         st_objs := st_objs st ++ [{| o_groups := decoded_groups k a (length d) skip hl t |}];
-         st_caller := st_caller st |}
+      add_object st h2 {| b_groups := decoded_groups k a (length d) skip hl t; b_memo := MNone |}
     | None => st
     end
   | ODecodeOwned cv k skip hl =>
@@ -164,30 +211,33 @@ Definition step (st : state) (p : op) : state :=
       let d := read h v in
       let '(h1, t) := alloc h (Obj id) (sub d (skip + hl) (length d - skip - hl)) in
       let gs := decoded_groups k (v_cell v) (v_len v) skip hl t in
-      (* the object's views alias the CALLER's cell, shifted by the caller view's offset *)
+      (* the body's views alias the CALLER's cell, shifted by the caller view's offset *)
       let shift := map (map (fun w => if Nat.eqb (v_cell w) (v_cell v)
                                        then {| v_cell := v_cell w; v_off := v_off v + v_off w; v_len := v_len w |}
                                        else w)) gs in
-      {| st_heap := h1; st_objs := st_objs st ++ [{| o_groups := shift |}]; st_caller := st_caller st |}
+      add_object st h1 {| b_groups := shift; b_memo := MNone |}
     | None => st
     end
   | OGet o g =>
-    let d := obs st o g in
-    let '(h1, a) := alloc h Caller d in
-    {| st_heap := h1; st_objs := st_objs st; st_caller := st_caller st ++ [whole a (length d)] |}
+    let st1 := fire st o g in
+    let d := obs st1 o g in
+    let '(h1, a) := alloc (st_heap st1) Caller d in
+    {| st_heap := h1; st_bodies := st_bodies st1; st_objs := st_objs st1;
+       st_caller := st_caller st1 ++ [whole a (length d)] |}
   | OAppend o g cv =>
-    match caller_view st cv with
+    let st1 := fire st o g in
+    match caller_view st1 cv with
     | Some v =>
       (* append writes behind the destination's elements, inside the caller's cell *)
-      let d := obs st o g in
-      {| st_heap := update_cell h (v_cell v) (fun old => firstn (v_off v + v_len v) old ++ d);
-         st_objs := st_objs st;
-         st_caller := st_caller st ++ [{| v_cell := v_cell v; v_off := v_off v; v_len := v_len v + length d |}] |}
-    | None => st
+      let d := obs st1 o g in
+      {| st_heap := update_cell (st_heap st1) (v_cell v) (fun old => firstn (v_off v + v_len v) old ++ d);
+         st_bodies := st_bodies st1; st_objs := st_objs st1;
+         st_caller := st_caller st1 ++ [{| v_cell := v_cell v; v_off := v_off v; v_len := v_len v + length d |}] |}
+    | None => st1
     end
   | OShare o =>
     match nth_error (st_objs st) o with
-    | Some ob => {| st_heap := h; st_objs := st_objs st ++ [ob]; st_caller := st_caller st |}
+    | Some bi => {| st_heap := h; st_bodies := st_bodies st; st_objs := st_objs st ++ [bi]; st_caller := st_caller st |}
     | None => st
     end
   end.
